@@ -48,8 +48,8 @@ def run_demo(exe, cwd):
 
 def main():
     prop, k = sys.argv[1], sys.argv[2]
-    wt = "/tmp/mut/%s" % prop
-    src = "/tmp/mut/%s.out/%s" % (prop, k)
+    wt = "/tmp/mut/%s" % (prop + os.environ.get("MUT_SUFFIX", ""))
+    src = "/tmp/mut/%s%s.out/%s" % (prop, os.environ.get("MUT_SUFFIX", ""), k)
     meta = dict(property=prop, index=int(k), confirmed=False, steps={})
     sh(["git", "-C", wt, "checkout", "-q", "--", "."])
     r = sh(["git", "-C", wt, "apply", os.path.join(src, "patch.diff")])
@@ -88,7 +88,7 @@ def main():
     for f in (exe_mut, exe_clean):
         if os.path.exists(f):
             os.remove(f)
-    dst = "/verif/seeded/%s-%s" % (prop, k)
+    dst = "/verif/seeded/%s-%s%s" % (prop, os.environ.get("MUT_SUFFIX", ""), k)
     if ok:
         os.makedirs(dst, exist_ok=True)
         for f in ("patch.diff", "demo.cxx", "notes.md"):
